@@ -3,6 +3,7 @@ import BlobfinderModel.Properties.C13
 import BlobfinderModel.Gen.Blocks
 import BlobfinderModel.Properties.C08
 import BlobfinderModel.Model.Pipeline
+import BlobfinderModel.Proofs.Transpose
 /-!
 # C04 — results stay in the search window and are well-formed for arbitrary data
 Proved: index / sign / finiteness *logic*.  Residual (A-FLOAT): finiteness of the FFT pipeline
@@ -429,5 +430,46 @@ theorem kernels_in_bounds (y x h w : ℤ) (hy : 0 ≤ y ∧ y < h) (hx : 0 ≤ x
   intro hg
   have := (C03.refine_cut_in_bounds y x h w hy hx).2.2 hg
   exact ⟨this.1, this.2.1, this.2.2.1, this.2.2.2.1⟩
+
+/-- **when the elevation is finite.**  In a window with at least 4 rows (crop size ≥ 2), whatever the refined position (inside
+the window or not), some pixel is at distance ≥ 1.5 from it: the cone fit has a candidate and the elevation is a finite number -/
+theorem elevation_finite_of_four_rows (corr : ℤ → ℤ → ℚ) (h w : ℤ) (hh : 4 ≤ h) (hw : 0 < w) (py px height : ℚ) :
+    (elevation2 corr h w py px height).isSome = true := by
+  rw [elevation2_eq]
+  have hh' : (4 : ℚ) ≤ (h : ℚ) := by exact_mod_cast hh
+  have key : ∃ v, v ∈ elevCands corr h w py px height := by
+    by_cases hc : ((h : ℚ) - 1) / 2 ≤ py
+    · refine ⟨_, (mem_elevCands corr h w py px height _).mpr ⟨0, 0, ⟨le_refl 0, by omega⟩, ⟨le_refl 0, hw⟩, ?_, rfl⟩⟩
+      unfold Model.elev_rmin
+      have h1 : (3 : ℚ) / 2 ≤ py := by linarith
+      push_cast
+      nlinarith [sq_nonneg (((0 : ℤ) : ℚ) - px), sq_nonneg (py - 3 / 2)]
+    · refine ⟨_, (mem_elevCands corr h w py px height _).mpr ⟨h - 1, 0, ⟨by omega, by omega⟩, ⟨le_refl 0, hw⟩, ?_, rfl⟩⟩
+      unfold Model.elev_rmin
+      have h1 : (3 : ℚ) / 2 ≤ ((h : ℚ) - 1) - py := by have := not_le.mp hc; linarith
+      push_cast
+      nlinarith [sq_nonneg (((0 : ℤ) : ℚ) - px), sq_nonneg (((h : ℚ) - 1) - py - 3 / 2)]
+  obtain ⟨v, hv⟩ := key
+  have hne : elevCands corr h w py px height ≠ [] := fun e => by rw [e] at hv; cases hv
+  rw [if_neg hne]; rfl
+
+/-- ... and in a 2×2 window (crop size 1) no pixel is that far from a position inside the window: the elevation is `inf`
+(`none`), for every map -/
+theorem elevation_infinite_of_2x2 (corr : ℤ → ℤ → ℚ) (py px height : ℚ)
+    (hpy : 0 ≤ py ∧ py ≤ 1) (hpx : 0 ≤ px ∧ px ≤ 1) : elevation2 corr 2 2 py px height = none := by
+  rw [elevation2_eq]
+  have hnil : elevCands corr 2 2 py px height = [] := by
+    apply List.eq_nil_iff_forall_not_mem.mpr
+    intro v hv
+    obtain ⟨y, x, hy, hx, hd, _⟩ := (mem_elevCands corr 2 2 py px height v).mp hv
+    unfold Model.elev_rmin at hd
+    have hy' : (y : ℚ) = 0 ∨ (y : ℚ) = 1 := by
+      have : y = 0 ∨ y = 1 := by omega
+      rcases this with h | h <;> simp [h]
+    have hx' : (x : ℚ) = 0 ∨ (x : ℚ) = 1 := by
+      have : x = 0 ∨ x = 1 := by omega
+      rcases this with h | h <;> simp [h]
+    rcases hy' with h1 | h1 <;> rcases hx' with h2 | h2 <;> rw [h1, h2] at hd <;> nlinarith [hpy.1, hpy.2, hpx.1, hpx.2]
+  rw [if_pos hnil]
 
 end C04
